@@ -37,7 +37,7 @@ func (c26) Describe() engine.Info {
 	return engine.Info{
 		Rule: "class progress: random machine state + generated program with DIV/LCDC/FF46 writes, HALT and STOP + key events; class stop: real Run() under SimContext with cancel-before-start / cancel at the k-th Done evaluation / cancel mid-frame at a random cycle / window close at frame k, workloads with LCD on and off, audio and video attached or not. " +
 			"Oracle progress: exactly one step per party per cycle (a guest write to DIV/LCDC/FF46 in cycle n is seen by that party's tick in cycle n: counter=4, PPU position=1, DMA progress=1), 17,556 cycles between frames handed to the display, 738..740 stereo samples per frame when sound is on. Oracle stop: Run returns having started no frame after the request was visible, the frame in flight completes, Cleanup released the display once and closed both sample channels. Signature = (class, request kind, frame phase bucket / party event kind)." +
-			" A directed prologue produces TIMA overflows caused by the guest DIV/TAC write itself.",
+			" A directed prologue produces TIMA overflows caused by the guest DIV/TAC write itself. A second prologue stores to DIV/TAC every other cycle with TIMA = TMA = FF; the harness acknowledges a timer request once seen so that the next overflow can be told from it.",
 		Assumptions:    []string{"party progress is read through the verif accessors (timer counter, PPU position, DMA progress, RTC sub-second count)", "audio progress is judged by samples per frame (black box)"},
 		RequiredProbes: []string{"audio_clock_checked_while_powered_off", "timer_overflow_request_checked", "timer_overflow_caused_by_a_guest_write", "frames_counted", "guest_div_write", "guest_lcdc_on", "guest_dma_start", "cpu_stopped_cycles", "cpu_halted_cycles", "cancel_mid_frame", "cancel_at_done", "close_request", "cancel_before_start", "channels_closed"},
 		RealComponents: realComponents, StubComponents: stubComponents,
